@@ -323,6 +323,7 @@ func runOSeq(v int, ops []oop) string {
 
 func c06Oracle(c *oracleCtx) {
 	rawStrings(c, "object")
+	everyStorePath(c)
 	c.rule = "operation sequences on a pool of live objects (3 pools incl. empty key, shared nested containers, duplicate keys), every object compared with a map model after every step (Get/KeyExists/TypeOf/Keys/Values/Dict/Count), exact panics; distinct = distinct sequences"
 	if c.filter != nil {
 		for id := range c.filter {
@@ -1017,6 +1018,7 @@ func normNative(v any) any {
 
 func c12Oracle(c *oracleCtx) {
 	rawStrings(c, "both")
+	everyStorePath(c)
 	c.check("typed-native-nil-entries", true, func() string {
 		// nil entries of natively typed slices / maps become the nil kind, like everywhere else
 		var nilO Object
